@@ -36,6 +36,8 @@ mod type_entry;
 mod util;
 mod validate;
 mod value;
+#[cfg(feature = "verif-hooks")]
+pub mod verif;
 
 #[allow(missing_docs)]
 #[derive(Error, Debug)]
@@ -675,6 +677,8 @@ impl TypeSpace {
 
         // Eliminate cycles. It's sufficient to only start from referenced
         // types as a reference is required to make a cycle.
+        #[cfg(feature = "verif-hooks")]
+        verif::record_pre_cycles(self, base_id, def_len);
         self.break_cycles(base_id..base_id + def_len);
 
         // Finalize all created types.
